@@ -44,6 +44,8 @@ type Run struct {
 	knownSeen    map[string]bool
 	inconclusive []string
 	replayN      int
+	childN       int
+	childSamples int
 	MaxSamples   int
 	MaxReplays   int
 	assumptions  []string
@@ -140,6 +142,9 @@ func (r *Run) loadFindings() {
 
 // Eval counts executed cases.
 func (r *Run) Eval(n int64) {
+	if childEmit(childLine{T: "eval", N: n}) {
+		return
+	}
 	r.mu.Lock()
 	r.evals += n
 	r.mu.Unlock()
@@ -147,6 +152,9 @@ func (r *Run) Eval(n int64) {
 
 // Distinct records the abstract shape of a non-trivial case.
 func (r *Run) Distinct(shape string) {
+	if childEmit(childLine{T: "distinct", S: shape}) {
+		return
+	}
 	h := fnv.New64a()
 	h.Write([]byte(shape))
 	k := h.Sum64()
@@ -163,6 +171,16 @@ func (r *Run) DistinctCount() int {
 
 // Sample keeps a few literal cases for the evidence file.
 func (r *Run) Sample(v any) {
+	if _, ok := InChild(); ok {
+		r.mu.Lock()
+		r.childSamples++
+		n := r.childSamples
+		r.mu.Unlock()
+		if n <= 2 {
+			childEmit(childLine{T: "sample", V: v})
+		}
+		return
+	}
 	r.mu.Lock()
 	if len(r.samples) < r.MaxSamples {
 		r.samples = append(r.samples, v)
@@ -171,12 +189,21 @@ func (r *Run) Sample(v any) {
 }
 
 func (r *Run) Count(key string, n int64) {
+	if childEmit(childLine{T: "count", K: key, N: n}) {
+		r.mu.Lock()
+		r.counters[key] += n
+		r.mu.Unlock()
+		return
+	}
 	r.mu.Lock()
 	r.counters[key] += n
 	r.mu.Unlock()
 }
 
 func (r *Run) Max(key string, n int64) {
+	if childEmit(childLine{T: "max", K: key, N: n}) {
+		return
+	}
 	r.mu.Lock()
 	if r.counters[key] < n {
 		r.counters[key] = n
@@ -191,12 +218,18 @@ func (r *Run) Counter(key string) int64 {
 }
 
 func (r *Run) Set(key string, v any) {
+	if childEmit(childLine{T: "set", K: key, V: v}) {
+		return
+	}
 	r.mu.Lock()
 	r.extra[key] = v
 	r.mu.Unlock()
 }
 
 func (r *Run) Assume(s string) {
+	if childEmit(childLine{T: "assume", S: s}) {
+		return
+	}
 	r.mu.Lock()
 	r.assumptions = append(r.assumptions, s)
 	r.mu.Unlock()
@@ -207,6 +240,19 @@ func (r *Run) Assume(s string) {
 // it as open it is printed as KNOWN-FINDING and does not affect the exit code.
 // It returns true when the violation is new (not a known finding).
 func (r *Run) Violation(key, what string, replay any) bool {
+	if _, ok := InChild(); ok {
+		r.mu.Lock()
+		r.violKeys[key]++
+		first := r.violKeys[key] == 1
+		_, known := r.knownOpen[r.Prop+"|"+key]
+		r.mu.Unlock()
+		if first || known {
+			childEmit(childLine{T: "viol", K: key, S: what, Replay: replay})
+		} else {
+			childEmit(childLine{T: "viol", K: key, S: what})
+		}
+		return !known
+	}
 	r.mu.Lock()
 	defer r.mu.Unlock()
 	if kf, ok := r.knownOpen[r.Prop+"|"+key]; ok {
@@ -252,6 +298,9 @@ func (r *Run) Violations() int {
 
 // Inconclusive records a reason why this run cannot decide.
 func (r *Run) Inconclusive(reason string) {
+	if childEmit(childLine{T: "inc", S: reason}) {
+		return
+	}
 	r.mu.Lock()
 	r.inconclusive = append(r.inconclusive, reason)
 	r.mu.Unlock()
@@ -271,6 +320,9 @@ func (r *Run) FloorCounter(name string, want int64) {
 
 // Finish writes evidence/<prop>.json and exits: 0 held, 1 violation, 2 inconclusive.
 func (r *Run) Finish(level, rule string) {
+	if _, ok := InChild(); ok {
+		os.Exit(0) // a child only reports; the parent writes the evidence
+	}
 	r.mu.Lock()
 	cov := map[string]any{}
 	for k, v := range r.counters {
